@@ -30,11 +30,13 @@ def dump(path):
     return recs
 
 
-def with_ties(data, group, swap_every=0):
+def with_ties(data, group, swap_every=0, submilli=False):
     """The same event log with records of EQUAL creation time: in stored order, groups of `group` consecutive records get
     the creation time of the group's first record (whole microseconds), in the record header and in the record body
     (<TimeCreated SystemTime>); a record the file stores out of order is left as it is.  swap_every > 0: in addition
     every swap_every-th group takes the time of the group BEFORE it (so a whole group is stored out of order).
+    submilli: instead of equal times, the records of a group lie inside ONE millisecond, 100 microseconds apart, and are
+    stored latest first (creation times have 100 ns resolution; ordering by them means by all of it).
     Chunk checksums are not recomputed (the evtx crate does not verify them unless asked to)."""
     import struct
     data = bytearray(data)
@@ -63,6 +65,8 @@ def with_ties(data, group, swap_every=0):
                 if swap_every and gno % swap_every == 0 and ft_prev_group is not None:
                     ft_group = ft_prev_group - 10 * 1000 * 1000      # one second before the group stored ahead of it
             ft_new = ft_group
+            if submilli:
+                ft_new = ft_group - ft_group % 10000 + 1000 * (group - n_in)
             n_in = (n_in + 1) % group
         old, new = struct.pack("<Q", ft), struct.pack("<Q", ft_new)
         body = bytes(data[off + 24:off + size])
@@ -184,8 +188,10 @@ def run(pid, tier, seed):
         # ---- the same event log with records of equal creation time (the only non-empty .evtx available has none):
         #      "records of equal time kept in file order", also at the bounds of a window
         tie_runs = tie_files = 0
-        for vi, (group, swap) in enumerate([(3, 0), (2, 7), (5, 4)] if tier == "quick" else [(3, 0), (2, 7), (5, 4), (2, 0), (4, 3), (10, 2), (40, 0)]):
-            tb = with_ties(evb, group, swap)
+        for vi, (group, swap) in enumerate([(3, 0), (2, 7), (5, 4), (-2, 0), (-5, 0)] if tier == "quick" else [(3, 0), (2, 7), (5, 4), (2, 0), (4, 3), (10, 2), (40, 0), (-2, 0), (-3, 5), (-5, 0), (-8, 0)]):
+            submilli = group < 0
+            group = abs(group)
+            tb = with_ties(evb, group, swap, submilli)
             if tb is None:
                 rep.note("the sample .evtx could not be rewritten with equal times (layout not as expected): tie variants skipped")
                 break
@@ -202,7 +208,11 @@ def run(pid, tier, seed):
             temit = sorted(trecs, key=lambda x: ((x["secs"], x["nanos"]), x["idx"]))
             allk = [(x["secs"], x["nanos"]) for x in trecs]
             tinst = sorted({k_ for k_ in allk if allk.count(k_) > 1})
-            if not tinst:
+            if submilli:
+                tinst = sorted(set(allk))[:: max(1, len(set(allk)) // 30)]
+                if not any(allk[q] > allk[q + 1] and allk[q][0] == allk[q + 1][0] and allk[q][1] // 10**6 == allk[q + 1][1] // 10**6 for q in range(len(allk) - 1)):
+                    raise ToolError("rewritten event log holds no inversion inside one millisecond")
+            elif not tinst:
                 raise ToolError("rewritten event log holds no equal times")
             twins = [(None, None)]
             for p_ in rng.sample(tinst, min(len(tinst), 4 if tier == "quick" else 25)):
@@ -221,7 +231,7 @@ def run(pid, tier, seed):
                 tie_runs += 1
                 want = [x["id"] for x in temit if (a_ is None or (x["secs"], x["nanos"]) >= a_) and (b_ is None or (x["secs"], x["nanos"]) <= b_)]
                 got = [int(x) for x in RID.findall(rr.out)]
-                rec = {"kind": "c10-ties", "file": f_, "group": group, "swap_every": swap, "after": a_, "before": b_, "rc": rr.rc,
+                rec = {"kind": "c10-ties", "file": f_, "group": group, "swap_every": swap, "inside_one_millisecond": submilli, "after": a_, "before": b_, "rc": rr.rc,
                        "got_head": got[:24], "want_head": want[:24]}
                 if rr.crashed:
                     rep.violation("crash:ties", "rc=%s" % rr.rc, rec)
